@@ -158,6 +158,7 @@ class Plain:
         self.memo = {}
         self.evals = 0
         self.disagree = {}
+        self.acc_used = set()       # verbs whose reference value was an accept set, in the expansion of the current case
 
     def runtime(self, c):
         return self.twin(plit(c))
@@ -202,6 +203,8 @@ class Plain:
             self.memo[key] = hit
         if hit[0] == 'nj':
             raise NotJudged(hit[1], hit[2])
+        if hit[0] == 'acc':
+            self.acc_used.add(verb.text)
         return hit[1]
 
     def _ap(self, verb, args):
@@ -219,7 +222,7 @@ class Plain:
             return ('nj', 'outside-reference-domain', self.text(verb, args))
         got = self._evaluate(verb, args)
         if got[0] == 'ok' and verbs.judge(ref, got[1])[0]:
-            return ('val', got[1])
+            return ('val' if ref[0] == 'val' else 'acc', got[1])
         t = self.text(verb, args)
         self.disagree.setdefault(t, 'ok:' + show(got[1]) if got[0] == 'ok' else 'exc:' + got[1])
         return ('nj', 'plain-application-disagrees-with-reference', t)
@@ -268,9 +271,12 @@ def _opaque(c):
 # ---------------------------------------------------------------------------------------------
 # evaluation of the adverb program by an unmodified interpreter
 
-def evaluate(text, pynames=()):
+def evaluate(text, pynames=(), compiler=True):
+    """compiler=False is used only to label a violation (does it disappear without the expression compiler?)."""
     try:
         kl = KlongInterpreter()
+        if not compiler:
+            kl._c02_twin = True         # honoured by the compile_expr wrapper installed by Plain()
         for n in pynames:
             kl[n] = PYFNS[n]
         with runner.watchdog(10):
@@ -306,6 +312,9 @@ PY_SOURCE = {'padd': 'lambda x, y: x + y', 'psub': 'lambda x, y: x - y', 'ptwo':
              'pinc': 'lambda x: x + 1', 'pneg': 'lambda x: -x'}
 
 
+CHOICE_ACC = {'$', '<', '>'}        # verbs whose accept set is a choice of value (not only of kind / representation)
+
+
 def form_name(form):
     return '+'.join(form) if isinstance(form, tuple) else form
 
@@ -313,6 +322,7 @@ def form_name(form):
 def check_case(plain, case, vmap, out):
     form, vtext, left, a = case
     fname = form_name(form)
+    plain.acc_used = set()
     try:
         exp = expected_of(plain, case, vmap)
     except NotJudged as e:
@@ -327,12 +337,30 @@ def check_case(plain, case, vmap, out):
     if got[0] == 'ok':
         ok = model.accepts(exp, got[1])
         observed = 'ok:' + show(got[1])
+        if not ok and plain.acc_used:
+            # a plain application of this expansion has an accept set in the reference: the expansion was computed with
+            # the member the implementation's plain application picked, the adverb may pick another member
+            if model.accepts(exp, got[1], loose=True):
+                ok = True
+                out['accepted_within_accept_set'] += 1
+            elif plain.acc_used & CHOICE_ACC:
+                out['programs'] -= 1
+                out['per_form'][fname] -= 1
+                r = 'accept-set-member-differs (Grade of ties / Format digits)'
+                out['not_judged'][r] = out['not_judged'].get(r, 0) + 1
+                return None
     else:
         ok, observed = False, 'exc:' + got[1]
     out['outcomes'].add(hash((fname, observed)) & 0xffffffffffff)
     if not ok:
+        group = None
+        if vmap[(vtext, FORMS[form[0] if isinstance(form, tuple) else form][1])].kind in ('lambda', 'proj') or FORMS[
+                form[0] if isinstance(form, tuple) else form][2] == 'predicate':
+            again = evaluate(text, pynames, compiler=False)
+            if again[0] == 'ok' and model.accepts(exp, again[1]):
+                group = 'expression-compiler-in-lambda-body-changes-result (C05 root cause)'
         out['violations'].append(dict(key=text, observed=observed, expected=model.describe(exp),
-                                      group=classify(case, vmap, exp, got), case=case_json(case),
+                                      group=group or classify(case, vmap, exp, got), case=case_json(case),
                                       snippet=snippet(text, pynames)))
     return ok
 
@@ -357,6 +385,28 @@ def _ragged(c):
     return c[0] == 'l' and len(c[1]) > 0 and _block_shape(c) is None
 
 
+def _unwrap1(c):
+    """Replace every one-element list of a non-list by its element (to recognise "returned bare instead of in a list")."""
+    if c[0] != 'l':
+        return c
+    el = tuple(_unwrap1(e) for e in c[1])
+    if len(el) == 1 and el[0][0] != 'l':
+        return el[0]
+    return ('l', el)
+
+
+def _leaves(c):
+    if c[0] == 'l':
+        return [x for e in c[1] for x in _leaves(e)]
+    if c[0] == 's':
+        return [('c', ch) for ch in c[1]]
+    return [c]
+
+
+def _single(exp):
+    return exp[1] if exp[0] == 'alt' else [] if exp[0] == 'bag' else [exp]
+
+
 def classify(case, vmap, exp, got):
     form, vtext, left, a = case
     forms = form if isinstance(form, tuple) else (form,)
@@ -367,7 +417,7 @@ def classify(case, vmap, exp, got):
     atom = a[0] not in 'ls'
     if exc == 'TIMEOUT':
         return 'does-not-terminate'
-    if verb.kind == 'op' and vtext not in verbs.MONADS and FORMS[first][2] is None and exc == 'KeyError':
+    if verb.kind == 'op' and vtext not in verbs.MONADS and FORMS[first][2] is None:
         return 'dyad-only-operator-not-parsed-before-monadic-adverb'
     if first == 'scan-iterating' and left == 0:
         return 'scan-iterating-zero-count-returns-bare-operand'
@@ -375,6 +425,11 @@ def classify(case, vmap, exp, got):
         return 'each-left-right-atom-operand'
     if first == 'scan-over-neutral' and a[0] in 'ls' and len(a[1]) == 0:
         return 'scan-over-neutral-empty-operand-returns-bare-neutral'
+    if 'each' in forms and (a[0] in 'cy' or (forms[:2] == ('each', 'each') and (
+            a[0] == 's' or (a[0] == 'l' and any(e[0] in 'cy' for e in a[1]))))):
+        return 'each-character-or-symbol-atom-treated-as-string'
+    if verb.kind == 'op' and vtext == '%' and _has(exp, 'u') and ('over' in forms or 'scan-over' in forms):
+        return 'divide-shortcut-gives-inf-or-nan-for-division-by-zero'
     if exc == 'ValueError' and verb.kind == 'op' and vtext in '&|' and 'over' in forms:
         return 'over-min-max-shortcut-on-nested-list-raises'
     if first == 'each2' and exc == 'ValueError':
@@ -382,9 +437,10 @@ def classify(case, vmap, exp, got):
     if exc is None and not _has(exp, 'r') and _has(got[1], 'r'):
         return 'integer-results-become-real'
     if 'scan-over' in forms or first == 'scan-over-neutral':
-        if exc == 'TypeError' and texty:
+        if exc == 'TypeError' and (texty or _has(a, 'y')):
             return 'scan-over-arithmetic-shortcut-on-characters-raises'
-        if exc is None and not texty:
+        if exc is None and (any(model.same(_unwrap1(e), _unwrap1(got[1])) for e in _single(exp))
+                            or (atom and forms[0] == 'scan-over' and not texty)):
             return 'scan-over-atom-returned-bare'
     if texty and exc is None:
         if 'each' in forms and got[1][0] == 's' and a[0] == 's' and not (exp[0] == 's'):
@@ -394,8 +450,8 @@ def classify(case, vmap, exp, got):
         if 'over' in forms and verb.arity == 2 and len(forms) == 1 and a[0] == 's' and len(a[1]) == 1:
             return 'over-single-character-string-returns-string'
         return 'string-elements-reach-verb-as-strings-not-characters'
-    if exc is None and (_ragged(a) or _has(exp, 'l')):
-        return 'result-collection-mangles-nested-results ' + form_name(form)
+    if exc is None and any(_leaves(norm(e)) == _leaves(got[1]) for e in _single(exp)):
+        return 'result-collection-mangles-nested-results'
     return 'unclassified ' + form_name(form) + (' exc:' + exc if exc else '')
 
 
@@ -458,7 +514,8 @@ def work(quick):
             cases_vmap['vmap'] = {(v.text, v.arity): v for v in dy + mo + pr}
         vmap = cases_vmap['vmap']
         plain = Plain()
-        out = {'programs': 0, 'not_judged': {}, 'violations': [], 'outcomes': set(), 'per_form': {}, 'cases': 0}
+        out = {'programs': 0, 'not_judged': {}, 'violations': [], 'outcomes': set(), 'per_form': {}, 'cases': 0,
+               'accepted_within_accept_set': 0}
         for case in items:
             out['cases'] += 1
             check_case(plain, case, vmap, out)
@@ -495,6 +552,7 @@ def run(cfg):
         'programs_executed_and_judged': programs,
         'programs_per_form': dict(sorted(total.get('per_form', {}).items())),
         'not_judged_by_reason': dict(sorted(nj.items())),
+        'accepted_within_reference_accept_set': total.get('accepted_within_accept_set', 0),
         'plain_applications_executed': total.get('plain_evals', 0),
         'distinct_plain_applications': len(total.get('plain_keys', ())),
         'plain_applications_disagreeing_with_reference_examples': [list(x) for x in dis[:12]],
@@ -505,7 +563,8 @@ def run(cfg):
         'rule': '16 adverb forms x closed verb set (dyadic verbs for each-2/each-left/each-right/each-pair/over/scan-over and '
                 'their neutral forms, monadic verbs for each/each-index/iterate/converge/while and their scanning forms) x '
                 'right operands (x left operands / counts 0..3 / predicates), plus all chains f A1 A2 a with A1 in the 7 forms '
-                'that give a monad and A2 in each/each-index/converge/scan-converging; states = distinct (form, outcome) '
+                'that give a monad and A2 in each/each-index/converge/scan-converging (operand as literal and, for a few '
+                'operands, through a variable `A::a;f A1 A2 A`); states = distinct (form, outcome) '
                 'pairs; transitions = adverb programs executed + plain applications executed for the expansions; a case is '
                 'judged only if every plain application of its expansion is inside the reference domain and agrees with it',
     }
@@ -519,6 +578,9 @@ def run(cfg):
         'rtol 1e-12; f\'dictionary as multiset; "" where the text says [] accepted as "" or []',
         'where the text gives two formulas that differ (a f/b written out vs. "formally f/a,b" for a list a; f\\[] ) either '
         'reading is accepted; Converge may stop at any value from the first undecided to the first certain Match',
+        'where a plain application of the expansion has an accept set in the reference (kind of an integral Power, of a mixed '
+        'Min/Max, [] vs "") the adverb result may differ from the expansion in exactly that freedom; for accept sets that '
+        'are a choice of value (Grade of ties, digits of Format) a differing result is not judged',
         'While / Scan-While are judged only when the predicate yields an integer; Each-2 of atom and list, Each-Index of an '
         'atom are not judged (text silent)',
         'lambdas and projections are applied in a twin interpreter whose expression compiler is disabled; one twin per '
